@@ -3,7 +3,7 @@ type with an in-place DecodeFromBytes and every SerializableLayer.  TESTING, not
 CONF = {
     'no_proofs': True,          # no coq/Props/Sweep.v, no model, no runner: nothing here is proved
     'model_optional': True,
-    'level': 'testing',
+    'level': 'other',   # implementation-side sweep: testing only (no model, no theorem); 'other' is the schema's name for it
     'interesting': ['past-header', 'err-not-short', 'truncated-prefix-of-valid', 'option-length-extreme',
                     'nested-tunnel', 'error-after-add', 'panic-after-add', 'dirty-buffer', 'no-fixlengths'],
     # histogram-only tag: consistent-length-cut (cases of the consistent-length truncation/extension family)
